@@ -36,6 +36,11 @@ ENCODINGS = [
     ("str/nan", ["nan", "a", "b", "c"], "nan", str),
     ("strshort/nan", ["a", "b", "c"], "nan", str),
     ("strlong/x", ["x", "aa", "bbb", "c"], "x", str),
+    # every label is a one-character prefix of the (never occurring) sentinel: the array dtype <U1 is narrower than the sentinel
+    ("strprefix/nan", ["n", "a", "y"], "nan", str),
+    # sentinels given as numpy scalars (e.g. taken from an array: y.min())
+    ("int/np.int64(-1)", [-1, 0, 1, 2], np.int64(-1), int),
+    ("float/np.float32(-1)", [-1.0, 0.0, 1.0, 2.0], np.float32(-1), float),
     ("obj/None-num", [None, 0, 1, 2], None, object),
     ("obj/None-str", [None, "a", "b", "c"], None, object),
     ("num/None", [0, 1, 2], None, int),
